@@ -139,10 +139,6 @@ Section Keys.
 End Keys.
 
 (* ---------------------------------------------------------------- the pieces of one send *)
-Definition notrem (rems : list Z) (r : request) : bool := negb (memz (r_key r) rems).
-Definition ready (T : Z) (r : request) : bool := r_lo r + r_n r <=? T.
-Definition nready (T : Z) (r : request) : bool := negb (ready T r).
-
 Lemma sready_char S T W :
   sready S T W = (filter (nready T) W, map (s_item S) (filter (ready T) W)).
 Proof.
@@ -183,19 +179,20 @@ Proof.
         -- assumption.
 Qed.
 
-Lemma stack_ok_items k S X n0 : Forall (fun r => 0 <= r_lo r /\ r_n r = n0 /\ r_lo r + r_n r <= zlen S) X ->
-  0 <= n0 -> stack_ok k (map (s_item S) X) = true.
+Lemma stack_ok_items k S X : Forall (fun r => 0 <= r_lo r /\ 0 <= r_n r /\ r_lo r + r_n r <= zlen S) X ->
+  uniform_n X = true -> stack_ok k (map (s_item S) X) = true.
 Proof.
-  intros HX Hn0. unfold stack_ok.
+  intros HX Hu. unfold stack_ok.
   assert (Hm : existsb i_missed (map (s_item S) X) = false).
-  { induction X as [|r t IH]; [reflexivity|]. cbn. apply IH. now inversion HX. }
+  { clear Hu. induction X as [|r t IH]; [reflexivity|]. cbn. apply IH. now inversion HX. }
   rewrite Hm. cbn [negb]. rewrite orb_true_r, orb_true_l, andb_true_r.
-  assert (Hl : forall r, In r X -> zlen (i_data (s_item S r)) = n0).
+  assert (Hl : forall r, In r X -> zlen (i_data (s_item S r)) = r_n r).
   { intros r Hr. rewrite Forall_forall in HX. destruct (HX r Hr) as (H1 & H2 & H3).
     cbn. rewrite sl_zlen; lia. }
-  destruct X as [|r t]; [reflexivity|]. cbn [map uniform_len].
+  destruct X as [|r t]; [reflexivity|]. cbn [map uniform_len]. cbn [uniform_n] in Hu.
   apply forallb_forall. intros it Hit. apply in_map_iff in Hit. destruct Hit as (r' & <- & Hr').
-  rewrite (Hl r' (or_intror Hr')), (Hl r (or_introl eq_refl)). apply Z.eqb_refl.
+  rewrite (Hl r' (or_intror Hr')), (Hl r (or_introl eq_refl)).
+  rewrite forallb_forall in Hu. exact (Hu r' Hr').
 Qed.
 
 Lemma Forall_sprune {P : Z * Z -> Prop} B T kept : Forall P kept -> Forall P (sprune B T kept).
@@ -205,12 +202,12 @@ Proof.
 Qed.
 
 (* ---------------------------------------------------------------- invariant of well-formed runs *)
-Record GW (B n0 : Z) (s : sstate) (fs : list feed) : Prop := {
-  G_n0 : 0 <= n0;
+Record GW (B : Z) (s : sstate) (fs : list feed) : Prop := {
+  G_lens : lengths_ok (s_T s) (s_wait s) fs = true;
   G_T : 0 <= s_T s;
   G_len : zlen (s_stream s) = s_T s;
   G_kept : Forall (fun p => 0 <= fst p) (s_kept s);
-  G_n : Forall (fun r => r_n r = n0) (s_wait s ++ all_reqs fs);
+  G_n : Forall (fun r => 0 <= r_n r) (s_wait s ++ all_reqs fs);
   G_nodup : NoDup (map r_key (s_wait s) ++ req_keys fs);
   G_vis : visible_from B (s_T s) (s_kept s) fs = true;
   G_wait : Forall (fun r => 0 <= r_lo r /\ s_T s < r_lo r + r_n r) (s_wait s) }.
@@ -220,22 +217,23 @@ Definition live (s : sstate) (f : feed) : list request := filter (notrem (f_rems
 Lemma req_keys_cons f rest : req_keys (f :: rest) = map r_key (f_reqs f) ++ req_keys rest.
 Proof. unfold req_keys, all_reqs. cbn [flat_map]. now rewrite map_app. Qed.
 
-Lemma spec_feed_char B k n0 s f rest : GW B n0 s (f :: rest) ->
+Lemma spec_feed_char B k s f rest : GW B s (f :: rest) ->
   let T1 := s_T s + zlen (f_chunk f) in
   let S1 := s_stream s ++ f_chunk f in
   exists s', spec_feed B k s f =
              (s', FOut (map (s_item S1) (filter (ready T1) (live s f)))
                        (f_complete f && is_nil (s_wait s') && s_armed s)) /\
     s_wait s' = filter (nready T1) (live s f) /\ s_stream s' = S1 /\ s_T s' = T1 /\
-    Forall (fun r => 0 <= r_lo r /\ r_n r = n0) (s_wait s ++ f_reqs f) /\
+    Forall (fun r => 0 <= r_lo r /\ 0 <= r_n r) (s_wait s ++ f_reqs f) /\
     NoDup (map r_key (s_wait s ++ f_reqs f)) /\
-    GW B n0 s' rest.
+    GW B s' rest.
 Proof.
-  intros [Hn0 HT Hlen Hkept Hn Hnd Hvis Hwait]. intros T1 S1.
+  intros [Hlens HT Hlen Hkept Hn Hnd Hvis Hwait]. intros T1 S1.
   pose proof (zlen_nonneg (f_chunk f)) as Hm.
   rewrite req_keys_cons in Hnd.
   unfold all_reqs in Hn. cbn [flat_map] in Hn. fold (all_reqs rest) in Hn.
   cbn [visible_from] in Hvis. apply andb_true_iff in Hvis. destruct Hvis as [Hv1 Hv2].
+  cbn [lengths_ok] in Hlens. apply andb_true_iff in Hlens. destruct Hlens as [Hu1 Hu2].
   set (kept1 := s_kept s ++ [(s_T s, zlen (f_chunk f))]) in *.
   set (P := lb_start (s_T s) kept1) in *.
   assert (HP : 0 <= P).
@@ -246,7 +244,7 @@ Proof.
   assert (HndW : NoDup (map r_key (s_wait s))) by (eapply NoDup_app_remove_r; eauto).
   assert (HndL : NoDup (map r_key (s_wait s ++ f_reqs f))).
   { rewrite map_app. rewrite app_assoc in Hnd. eapply NoDup_app_remove_r; eauto. }
-  assert (HL : Forall (fun r => 0 <= r_lo r /\ r_n r = n0) (s_wait s ++ f_reqs f)).
+  assert (HL : Forall (fun r => 0 <= r_lo r /\ 0 <= r_n r) (s_wait s ++ f_reqs f)).
   { apply Forall_forall. intros r Hr. rewrite Forall_forall in Hn, Hwait, Hreq_lo. split.
     - apply in_app_or in Hr. destruct Hr as [Hr|Hr]; [apply Hwait in Hr; tauto|apply Hreq_lo in Hr; lia].
     - apply Hn. apply in_app_or in Hr. apply in_or_app. destruct Hr; [now left|right; apply in_or_app; now left]. }
@@ -267,8 +265,8 @@ Proof.
   fold (notrem (f_rems f)).
   rewrite <- map_app, <- !filter_app.
   change (filter (notrem (f_rems f)) (s_wait s ++ f_reqs f)) with (live s f).
-  assert (Hlive : Forall (fun r => 0 <= r_lo r /\ r_n r = n0) (live s f)) by now apply Forall_filter.
-  rewrite (stack_ok_items k S1 _ n0); [| |assumption].
+  assert (Hlive : Forall (fun r => 0 <= r_lo r /\ 0 <= r_n r) (live s f)) by now apply Forall_filter.
+  rewrite (stack_ok_items k S1); [| |exact Hu1].
   2:{ apply Forall_forall. intros r Hr. apply filter_In in Hr. destruct Hr as [Hr1 Hr2].
       rewrite Forall_forall in Hlive. destruct (Hlive r Hr1). unfold ready in Hr2.
       unfold S1. rewrite zlen_app, Hlen. fold T1. lia. }
@@ -306,12 +304,12 @@ Proof. reflexivity. Qed.
 
 (* every delivered epoch is the exact slice of the stream asked for by some request, with that
    request's key and metadata identity *)
-Lemma sdeliv_sound B k n0 : forall fs s, GW B n0 s fs ->
+Lemma sdeliv_sound B k : forall fs s, GW B s fs ->
   forall it, In it (sdeliv B k s fs) ->
   exists r, In r (s_wait s ++ all_reqs fs) /\ it = s_item (s_stream s ++ stream_of fs) r.
 Proof.
   induction fs as [|f rest IH]; intros s HG it Hit; [contradiction|].
-  destruct (spec_feed_char B k n0 s f rest HG) as (s' & E & HW & HS & HT & HL & HndL & HG').
+  destruct (spec_feed_char B k s f rest HG) as (s' & E & HW & HS & HT & HL & HndL & HG').
   rewrite (sdeliv_step _ _ _ _ _ _ _ _ E) in Hit. apply in_app_or in Hit.
   rewrite stream_of_cons, app_assoc.
   unfold all_reqs. cbn [flat_map]. fold (all_reqs rest).
@@ -321,7 +319,7 @@ Proof.
     exists r. split; [rewrite app_assoc; apply in_or_app; now left|].
     rewrite Forall_forall in HL. destruct (HL r Hr) as [H1 H2].
     symmetry. apply s_item_app; [lia|destruct HG; lia|].
-    unfold ready in Hrd. rewrite zlen_app, (G_len _ _ _ _ HG). lia.
+    unfold ready in Hrd. rewrite zlen_app, (G_len _ _ _ HG). lia.
   - destruct (IH s' HG' it Hit) as (r & Hr & ->). rewrite HS. exists r. split; [|reflexivity].
     rewrite HW in Hr. rewrite app_assoc. apply in_app_or in Hr. apply in_or_app.
     destruct Hr as [Hr|Hr]; [left|now right].
@@ -337,11 +335,11 @@ Proof.
   intros it Hit. specialize (H it Hit). lia.
 Qed.
 
-Lemma sdeliv_unknown B k n0 fs s key : GW B n0 s fs ->
+Lemma sdeliv_unknown B k fs s key : GW B s fs ->
   ~ In key (map r_key (s_wait s) ++ req_keys fs) -> count_key key (sdeliv B k s fs) = 0.
 Proof.
   intros HG Hk. apply count_key_zero. intros it Hit Heq.
-  destruct (sdeliv_sound B k n0 fs s HG it Hit) as (r & Hr & ->). cbn in Heq. apply Hk.
+  destruct (sdeliv_sound B k fs s HG it Hit) as (r & Hr & ->). cbn in Heq. apply Hk.
   unfold req_keys. rewrite <- map_app, <- Heq. now apply in_map.
 Qed.
 
@@ -391,7 +389,7 @@ Fixpoint fate_f (T : Z) (fs : list feed) (r : request) : bool :=
     else fate_f (T + zlen (f_chunk f)) rest r
   end.
 
-Lemma step_in_live B k n0 s f rest r : GW B n0 s (f :: rest) -> In r (s_wait s ++ f_reqs f) ->
+Lemma step_in_live B k s f rest r : GW B s (f :: rest) -> In r (s_wait s ++ f_reqs f) ->
   forall s' b cb, spec_feed B k s f = (s', FOut b cb) ->
   let T1 := s_T s + zlen (f_chunk f) in
   count_key (r_key r) b = Z.b2z (notrem (f_rems f) r && ready T1 r) /\
@@ -400,7 +398,7 @@ Lemma step_in_live B k n0 s f rest r : GW B n0 s (f :: rest) -> In r (s_wait s +
   (notrem (f_rems f) r && nready T1 r = false -> ~ In (r_key r) (map r_key (s_wait s') ++ req_keys rest)).
 Proof.
   intros HG Hr s' b cb E T1.
-  destruct (spec_feed_char B k n0 s f rest HG) as (s0 & E0 & HW & HS & HT & HL & HndL & HG').
+  destruct (spec_feed_char B k s f rest HG) as (s0 & E0 & HW & HS & HT & HL & HndL & HG').
   rewrite E0 in E. inversion E; subst s0 b cb. clear E.
   unfold live. fold T1. rewrite HW. unfold live.
   rewrite !filter_filter.
@@ -420,7 +418,7 @@ Proof.
       eapply NoDup_app_disjoint; eauto. now apply in_map.
 Qed.
 
-Theorem count_fate B k n0 : forall fs s, GW B n0 s fs -> forall r,
+Theorem count_fate B k : forall fs s, GW B s fs -> forall r,
   (In r (s_wait s) ->
      count_key (r_key r) (sdeliv B k s fs) = Z.b2z (fate_w (s_T s) fs r) /\
      (fate_w (s_T s) fs r = true -> In (s_item (s_stream s ++ stream_of fs) r) (sdeliv B k s fs))) /\
@@ -430,24 +428,24 @@ Theorem count_fate B k n0 : forall fs s, GW B n0 s fs -> forall r,
 Proof.
   induction fs as [|f rest IH]; intros s HG r.
   - split; [|intros []]. intros _. cbn. split; [reflexivity|discriminate].
-  - destruct (spec_feed_char B k n0 s f rest HG) as (s' & E & HW & HS & HT & HL & HndL & HG').
+  - destruct (spec_feed_char B k s f rest HG) as (s' & E & HW & HS & HT & HL & HndL & HG').
     assert (Hcase : In r (s_wait s ++ f_reqs f) ->
       count_key (r_key r) (sdeliv B k s (f :: rest)) = Z.b2z (fate_w (s_T s) (f :: rest) r) /\
       (fate_w (s_T s) (f :: rest) r = true ->
        In (s_item (s_stream s ++ stream_of (f :: rest)) r) (sdeliv B k s (f :: rest)))).
     { intros Hr.
-      destruct (step_in_live B k n0 s f rest r HG Hr _ _ _ E) as (Hc & Hin & Hw & Hgone).
+      destruct (step_in_live B k s f rest r HG Hr _ _ _ E) as (Hc & Hin & Hw & Hgone).
       rewrite (sdeliv_step _ _ _ _ _ _ _ _ E), count_key_app, Hc.
       rewrite stream_of_cons, app_assoc, <- HS.
       cbn [fate_w]. unfold notrem, nready, ready in *.
       destruct (memz (r_key r) (f_rems f)) eqn:Erem; cbn [negb andb] in *.
-      { rewrite (sdeliv_unknown B k n0 rest s' _ HG' (Hgone eq_refl)). split; [reflexivity|discriminate]. }
+      { rewrite (sdeliv_unknown B k rest s' _ HG' (Hgone eq_refl)). split; [reflexivity|discriminate]. }
       destruct (r_lo r + r_n r <=? s_T s + zlen (f_chunk f)) eqn:Erd; cbn [negb] in *.
-      { rewrite (sdeliv_unknown B k n0 rest s' _ HG' (Hgone eq_refl)). split; [reflexivity|].
+      { rewrite (sdeliv_unknown B k rest s' _ HG' (Hgone eq_refl)). split; [reflexivity|].
         intros _. apply in_or_app. left.
         rewrite Forall_forall in HL. destruct (HL r Hr) as [H1 H2].
         rewrite HS, s_item_app; [now apply Hin|lia|destruct HG; lia|].
-        rewrite zlen_app, (G_len _ _ _ _ HG). lia. }
+        rewrite zlen_app, (G_len _ _ _ HG). lia. }
       destruct (IH s' HG' r) as [IHw _]. destruct (IHw (Hw eq_refl)) as [IH1 IH2].
       rewrite HT in IH1, IH2. rewrite IH1. split; [reflexivity|].
       intros Hf. apply in_or_app. right. now apply IH2. }
@@ -489,12 +487,12 @@ Proof.
 Qed.
 
 (* no send of a well-formed schedule raises, and every send is answered *)
-Lemma spec_no_error B k n0 : forall fs s, GW B n0 s fs ->
+Lemma spec_no_error B k : forall fs s, GW B s fs ->
   Forall (fun o => is_err o = false) (map snd (spec_trace B k s fs)) /\
   length (spec_trace B k s fs) = length fs.
 Proof.
   induction fs as [|f rest IH]; intros s HG; [split; [constructor|reflexivity]|].
-  destruct (spec_feed_char B k n0 s f rest HG) as (s' & E & _ & _ & _ & _ & _ & HG').
+  destruct (spec_feed_char B k s f rest HG) as (s' & E & _ & _ & _ & _ & _ & HG').
   cbn [spec_trace]. rewrite E. cbn [map snd length]. destruct (IH s' HG') as [IH1 IH2].
   split; [constructor; [reflexivity|assumption]|now rewrite IH2].
 Qed.
@@ -625,21 +623,39 @@ Proof.
   constructor; [|auto]. apply negb_true_iff in H1. now apply memz_false.
 Qed.
 
-Lemma wf_GW B n0 fs : wf_sched B n0 fs = true -> GW B n0 sinit fs.
+Lemma wf_GW B fs : wf_sched B fs = true -> GW B sinit fs.
 Proof.
   unfold wf_sched. intros H. repeat (apply andb_true_iff in H; destruct H as [H ?]).
   constructor; cbn; try lia; try constructor; auto.
-  - apply Forall_forall. intros r Hr. rewrite forallb_forall in H3. specialize (H3 r Hr). lia.
+  - apply Forall_forall. intros r Hr. rewrite forallb_forall in H4. specialize (H4 r Hr). lia.
   - now apply nodupz_NoDup.
 Qed.
 
-Lemma wf_parts B n0 fs : wf_sched B n0 fs = true ->
-  0 <= B /\ 0 <= n0 /\ Forall (fun r => r_n r = n0) (all_reqs fs) /\ NoDup (req_keys fs) /\ rems_ok fs = true.
+Lemma wf_parts B fs : wf_sched B fs = true ->
+  0 <= B /\ Forall (fun r => 0 <= r_n r) (all_reqs fs) /\ NoDup (req_keys fs) /\ rems_ok fs = true.
 Proof.
   unfold wf_sched. intros H. repeat (apply andb_true_iff in H; destruct H as [H ?]).
   repeat split; try lia; auto.
-  - apply Forall_forall. intros r Hr. rewrite forallb_forall in H3. specialize (H3 r Hr). lia.
+  - apply Forall_forall. intros r Hr. rewrite forallb_forall in H4. specialize (H4 r Hr). lia.
   - now apply nodupz_NoDup.
+Qed.
+
+(* one epoch length for the whole schedule (epoch_size given) is the common special case *)
+Lemma uniform_n_same n0 X : Forall (fun r => r_n r = n0) X -> uniform_n X = true.
+Proof.
+  intros H. destruct X as [|x t]; [reflexivity|]. cbn. inversion H; subst.
+  apply forallb_forall. intros y Hy. rewrite Forall_forall in H3. rewrite (H3 y Hy). apply Z.eqb_refl.
+Qed.
+
+Lemma lengths_ok_same n0 : forall fs T W, Forall (fun r => r_n r = n0) (W ++ all_reqs fs) ->
+  lengths_ok T W fs = true.
+Proof.
+  induction fs as [|f rest IH]; intros T W H; [reflexivity|]. cbn [lengths_ok].
+  unfold all_reqs in H. cbn [flat_map] in H. fold (all_reqs rest) in H. rewrite app_assoc in H.
+  apply Forall_app in H. destruct H as [H1 H2].
+  apply andb_true_iff. split.
+  - apply (uniform_n_same n0). now do 2 apply Forall_filter.
+  - apply IH. apply Forall_app. split; [now do 2 apply Forall_filter|assumption].
 Qed.
 
 (* ---------------------------------------------------------------- the configured look-back suffices *)
